@@ -360,6 +360,10 @@ class LayoutFn:
         if k == "MCall":
             nm = n.get("n") or n.get("callee", "").rsplit("::", 1)[-1]
             o = c(n.get("obj")) if n.get("obj") is not None else "this"
+            if not n.get("a") and nm not in ("size", "length", "data", "begin", "end"):
+                g = self.getter_member(n)
+                if g is not None:
+                    return "%s.%s" % (o, g)
             if nm in ("size", "length") and not n.get("a"):
                 return COUNT_INVARIANT.get("#" + o, "#" + o)
             if nm == "at" and len(n.get("a", [])) == 1:
@@ -395,6 +399,24 @@ class LayoutFn:
         if k == "Cond":
             return "(%s ? %s : %s)" % (c(n["c"]), c(n["then"]), c(n["else"]))
         return render(n)
+
+    def getter_member(self, call):
+        """`obj.get_x()` whose body is `return this->_x;` -> '_x'"""
+        facts = self.fn.facts
+        key = call.get("callee")
+        cache = facts.__dict__.setdefault("_getter_cache", {})
+        if key not in cache:
+            res = None
+            for g in facts.functions:
+                if g.qn == key and not g.params and g.tk != "pattern":
+                    b = stmts_of(g.body)
+                    if len(b) == 1 and b[0].get("k") == "Return" and b[0].get("e") is not None:
+                        e = strip_cast(b[0]["e"])
+                        if e.get("k") == "Member" and (e.get("b") is None or strip_cast(e["b"]).get("k") == "This"):
+                            res = e["n"]
+                    break
+            cache[key] = res
+        return cache[key]
 
     def acanon(self, n, lv=None):
         s = self.canon(n, lv)
@@ -501,10 +523,10 @@ class LayoutFn:
         if k == "If":
             if not self.relevant(s):
                 return [st]
-            cc = self.canon(s["c"])
+            cc, pol = self.norm_cond(s["c"])
             a, b = st.fork(), st.fork()
-            a.conds.append((cc, True))
-            b.conds.append((cc, False))
+            a.conds.append((cc, pol))
+            b.conds.append((cc, not pol))
             ra = self.block(stmts_of(s.get("then")), [a])
             rb = self.block(stmts_of(s.get("else")), [b]) if s.get("else") is not None else [b]
             return ra + rb
@@ -531,6 +553,18 @@ class LayoutFn:
         if self.relevant(s):
             raise Unknown("statement '%s' touching the buffer / cursors at line %s" % (render(s)[:80], s.get("l")))
         return [st]
+
+    def norm_cond(self, c):
+        """canonical text and polarity of a branch condition: `!x` and `a == b` are the negations of `x` and `a != b`"""
+        c = strip_cast(c)
+        if c.get("k") == "Un" and c.get("op") == "!":
+            t, p_ = self.norm_cond(c["e"])
+            return t, not p_
+        if c.get("k") in ("Bin", "OpCall") and c.get("op") == "==":
+            c2 = dict(c)
+            c2["op"] = "!="
+            return self.canon(c2), False
+        return self.canon(c), True
 
     def do_assign(self, s, st, lv, loop):
         l = strip_cast(s["lhs"])
@@ -1017,6 +1051,29 @@ def align_allowance(L, st):
     return tot
 
 
+def slack_verdict(D, allow):
+    """D = provided - needed bytes.  True: a constant >= the alignment slack; False: a definite shortfall (constant too small, or a negative
+    multiple of a count of the container: fails for containers with enough arrays / scalars); None: contains terms the analysis cannot sign"""
+    if allow is None:
+        return None
+    D = sp.expand(D)
+    if D.is_Integer:
+        return int(D) >= allow and int(D) >= 0
+    known = lambda s_: str(s_).startswith(("#", "SUM{", "sz["))
+    if not all(known(s_) for s_ in D.free_symbols):
+        return None
+    neg = False
+    for t in sp.Add.make_args(D):
+        c, _ = t.as_coeff_Mul()
+        if t.free_symbols and c < 0:
+            neg = True
+    if neg:
+        return False
+    const = [t for t in sp.Add.make_args(D) if not t.free_symbols]
+    c0 = int(const[0]) if const else 0
+    return c0 >= allow     # surplus terms only add slack
+
+
 def check_container_serializer(ck, facts, cls_re, targs):
     """E12 on one instantiation Container<DT,IT>::_serialize<DT2,IT2> / _deserialize<DT2,IT2> / _serialized_size<DT2,IT2>"""
     fs = [f for f in facts.functions if f.tk != "pattern" and re.search(cls_re, f.cls) and f.full.endswith(targs)]
@@ -1076,17 +1133,17 @@ def check_container_serializer(ck, facts, cls_re, targs):
           "header slots written: %s" % sorted(hdr), w.file, w.line, trivial=True)
 
     # ---- segments, path by path ----------------------------------------------------------------------
-    wp = {tuple(st.conds): st for st in wpaths}
-    rp = {tuple(st.conds): st for st in rpaths}
+    wp = {tuple(sorted(st.conds)): st for st in wpaths}
+    rp = {tuple(sorted(st.conds)): st for st in rpaths}
+    if set(wp) != set(rp):
+        # the two functions branch on conditions that cannot be aligned (after substituting the writer's header fields and normalising
+        # negations): which writer branch corresponds to which reader branch is then unknown - not a verdict
+        ck.incomplete("E12.segments", "%s: branch conditions of _serialize {%s} and _deserialize {%s} cannot be aligned" % (
+            inst, "; ".join(sorted(set(c for k_ in wp for c, _ in k_))), "; ".join(sorted(set(c for k_ in rp for c, _ in k_)))))
+        return
     for conds in sorted(set(wp) | set(rp)):
         lab = path_label(conds)
         a, b = wp.get(conds), rp.get(conds)
-        if a is None or b is None:
-            ck.ob("E12.segments", "%s/[%s]/branch" % (inst, lab), False,
-                  "the %s has no branch for the condition set {%s} that the %s distinguishes (conditions are compared after substituting the writer's header fields)" % (
-                      "writer" if a is None else "reader", "; ".join("%s is %s" % c for c in conds), "reader" if a is None else "writer"),
-                  (r if a is None else w).file, (r if a is None else w).line)
-            continue
         n = max(len(a.events), len(b.events))
         for i in range(n):
             we = a.events[i] if i < len(a.events) else None
@@ -1109,7 +1166,7 @@ def check_container_serializer(ck, facts, cls_re, targs):
             al = e.get("alloc")
             key = "%s/[%s]/%s" % (inst, lab, e["field"].replace("[$i]", ""))
             if al is None:
-                ck.ob("E2.alloc-extent", key, False, "array %s receives %s elements per transfer but is not allocated in the loop" % (e["field"], e["count"]), r.file, e["line"])
+                ck.incomplete("E2.alloc-extent", "%s: no allocate_memory for %s recognised in the transfer loop (allocated by an unmodelled construct?)" % (key, e["field"]))
             else:
                 ok = al["count"] == e["count"] and (al["type"] == e["T"] or not e["T"])
                 ck.ob("E2.alloc-extent", key, ok, "allocate_memory<%s>(%s) receives %s x %s" % (al["type"], al["count"], e["count"], e["T"] or e["unit"]), r.file, al["line"])
@@ -1179,7 +1236,11 @@ def check_container_serializer(ck, facts, cls_re, targs):
                 else:
                     sub[sy] = symbol("SUM{%s|%s}" % (cnt, e["outer"])) * symbol("sz[%s]" % T)
         D = sp.simplify(sp.expand(Sexpr.subs(sub) - ub))
-        ok = D.is_Integer and allow is not None and int(D) >= allow and int(D) >= 0
+        verdict = slack_verdict(D, allow)
+        if verdict is None:
+            ck.incomplete("E12.size-accounts", "%s/[%s]: _serialized_size - bytes written = %s could not be reduced to counts of the container (an unmodelled term on either side)" % (inst, lab, sp.sstr(D)))
+            continue
+        ok = verdict
         ck.ob("E12.size-accounts", "%s/[%s]/allocated" % (inst, lab), bool(ok),
               "_serialized_size - bytes written = %s (needs a constant >= %s bytes of alignment slack)" % (sp.sstr(D), allow), sz.file, sz.line,
               sample={"size": sp.sstr(Sexpr), "written": sp.sstr(ub)})
@@ -1188,7 +1249,14 @@ def check_container_serializer(ck, facts, cls_re, targs):
             ck.incomplete("E12.size-accounts", "%s: total length slot / final resize not found" % inst)
             continue
         D2 = sp.simplify(sp.expand(h0["sym"] - exact))
-        ok2 = D2.is_Integer and allow is not None and int(D2) >= allow and st.resize[0] == "H0"
+        v2 = slack_verdict(D2, allow)
+        if v2 is None:
+            ck.incomplete("E12.size-accounts", "%s/[%s]: length word - bytes written = %s could not be reduced to counts of the container" % (inst, lab, sp.sstr(D2)))
+            continue
+        if st.resize[0] != "H0":
+            ck.incomplete("E12.size-accounts", "%s/[%s]: the result is resized to '%s', not to the stored length word" % (inst, lab, st.resize[0]))
+            continue
+        ok2 = v2
         ck.ob("E12.size-accounts", "%s/[%s]/length-slot" % (inst, lab), bool(ok2),
               "stream length stored in slot 0 - bytes written = %s (needs a constant >= %s), result resized to %s" % (sp.sstr(D2), allow, st.resize[0]), w.file, h0["line"])
 
@@ -1199,13 +1267,25 @@ def check_container_serializer(ck, facts, cls_re, targs):
 
 def check_stream_variants(ck, inst, targs, ws_, rs_):
     """_serialize(mode, ostream, config) writes exactly the byte vector of _serialize(mode, config); _deserialize(mode, istream)
-    reads the length word (slot 0), rewinds by exactly that word and reads `length` bytes, then forwards (mode, DT2, IT2) unchanged."""
+    reads the length word (slot 0), rewinds by exactly that word and reads `length` bytes, then forwards (mode, DT2, IT2) unchanged.
+    Each condition is three-valued: a definite mismatch is a violation, an unrecognised shape is analysis-incomplete."""
+    R = "E12.stream-frame"
+
+    def settle(key, conds, f):
+        bad = [t for c, t in conds if c is False]
+        unk = [t for c, t in conds if c is None]
+        if bad:
+            ck.ob(R, key, False, "violated: " + "; ".join(bad), f.file, f.line)
+        elif unk:
+            ck.incomplete(R, "%s: not recognised: %s" % (key, "; ".join(unk)))
+        else:
+            ck.ob(R, key, True, "; ".join(t for c, t in conds), f.file, f.line)
     # writer
     calls = [c for c in ws_.calls(name="_serialize")]
     wr = [c for c in ws_.calls() if c.get("k") == "MCall" and c.get("n") == "write"]
-    ok = len(calls) == 1 and targs_of(calls[0].get("cfull", "")) == targs.strip("<>") and len(wr) == 1
-    detail = "forwards to %s and writes %s" % (calls[0].get("cfull") if calls else None, render(wr[0]) if wr else None)
-    if ok:
+    if len(calls) != 1 or len(wr) != 1 or len(wr[0].get("a", [])) != 2:
+        ck.incomplete(R, "%s/ostream: expected one forwarding call to _serialize and one stream write" % inst)
+    else:
         L = LayoutFn(ws_, "w")
         vec = None
         for d, v in L.decl.items():
@@ -1214,45 +1294,51 @@ def check_stream_variants(ck, inst, targs, ws_, rs_):
                 ini = strip_cast(ini["a"][0])
             if ini is calls[0]:
                 vec = d
-        a0, a1 = strip_cast(wr[0]["a"][0]), strip_cast(wr[0]["a"][1])
-        ok = (vec is not None and a0.get("k") == "MCall" and a0.get("n") == "data" and strip_cast(a0["obj"]).get("d") == vec
-              and a1.get("k") == "MCall" and a1.get("n") == "size" and strip_cast(a1["obj"]).get("d") == vec
-              and L.canon(calls[0]["a"][0]) == "$p0")
-    ck.ob("E12.stream-frame", "%s/ostream" % inst, ok, detail, ws_.file, ws_.line)
+        a0, a1 = through_consts(ws_, wr[0]["a"][0]), through_consts(ws_, wr[0]["a"][1])
+
+        def of_vec(x, nm):
+            if vec is None or x is None or x.get("k") != "MCall" or x.get("n") not in ("data", "size"):
+                return None
+            return x.get("n") == nm and strip_cast(x["obj"]).get("d") == vec
+        settle("%s/ostream" % inst, [
+            (targs_of(calls[0].get("cfull", "")) == targs.strip("<>"), "forwards the type parameters %s" % targs),
+            (L.canon(calls[0]["a"][0]) == "$p0" if strip_cast(calls[0]["a"][0]).get("k") == "Ref" else None, "forwards the FileMode tag"),
+            (of_vec(a0, "data"), "writes data() of the serialised vector"),
+            (of_vec(a1, "size"), "writes size() bytes of it"),
+        ], ws_)
     # reader
     L = LayoutFn(rs_, "r")
-    seqs = []
-    for n in rs_.nodes():
-        if n.get("k") == "MCall" and n.get("n") in ("read", "seekg") and "istream" in (n.get("callee") or ""):
-            seqs.append(n)
+    seqs = [n for n in rs_.nodes() if n.get("k") == "MCall" and n.get("n") in ("read", "seekg") and "istream" in (n.get("callee") or "")]
     fwd = [c for c in rs_.calls(name="_deserialize")]
-    ok = len(seqs) == 3 and [x["n"] for x in seqs] == ["read", "seekg", "read"] and len(fwd) == 1
-    detail = "stream operations: %s" % [render(x)[:60] for x in seqs]
-    if ok:
-        r1, sk, r2 = seqs
-        t1 = strip_cast(r1["a"][0])
-        lenvar = strip_cast(t1["e"]).get("d") if t1.get("k") == "Un" and t1.get("op") == "&" else None
-        n1 = strip_cast(r1["a"][1])
-        skn = strip_cast(sk["a"][0])
-        back = strip_cast(skn["e"]) if skn.get("k") == "Un" and skn.get("op") == "-" else None
-        lent = rs_.type(L.decl[lenvar]["t"]) if lenvar in L.decl else None
-        tmp = strip_cast(r2["a"][0])
-        tmpd = strip_cast(tmp["obj"]).get("d") if tmp.get("k") == "MCall" and tmp.get("n") == "data" else None
-        tini = L.decl.get(tmpd, {}).get("init")
-        tsz = strip_cast(tini["a"][0]) if tini is not None and tini.get("a") else None
-        conds = [
-            (lenvar is not None and n1.get("k") == "SizeOf" and n1.get("type") == lent, "first read fills the length word with sizeof(its type)"),
-            (back is not None and back.get("k") == "SizeOf" and back.get("type") == lent, "seeks back by exactly the length word"),
-            (strip_cast(r2["a"][1]).get("d") == lenvar, "second read takes `length` bytes"),
-            (tsz is not None and tsz.get("d") == lenvar, "temporary buffer has `length` bytes"),
-            (targs_of(fwd[0].get("cfull", "")) == targs.strip("<>"), "forwards the type parameters %s" % targs),
-            (L.canon(fwd[0]["a"][0]) == "$p0", "forwards the FileMode tag"),
-            (strip_cast(fwd[0]["a"][1]).get("d") == tmpd, "forwards the buffer that was read"),
-        ]
-        bad = [t for c, t in conds if not c]
-        ok = not bad
-        detail = "violated: " + "; ".join(bad) if bad else "; ".join(t for c, t in conds)
-    ck.ob("E12.stream-frame", "%s/istream" % inst, ok, detail, rs_.file, rs_.line)
+    if [x["n"] for x in seqs] != ["read", "seekg", "read"] or len(fwd) != 1:
+        ck.incomplete(R, "%s/istream: expected read / seekg / read and one forwarding call (found %s)" % (inst, [x["n"] for x in seqs]))
+        return
+    r1, sk, r2 = seqs
+    t1 = strip_cast(r1["a"][0])
+    lenvar = strip_cast(t1["e"]).get("d") if t1.get("k") == "Un" and t1.get("op") == "&" and strip_cast(t1["e"]).get("k") == "Ref" else None
+    lent = rs_.type(L.decl[lenvar]["t"]) if lenvar in L.decl else None
+    n1 = through_consts(rs_, r1["a"][1])
+    skn = strip_cast(sk["a"][0])
+    back = through_consts(rs_, skn["e"]) if skn.get("k") == "Un" and skn.get("op") == "-" else None
+    tmp = strip_cast(r2["a"][0])
+    tmpd = strip_cast(tmp["obj"]).get("d") if tmp.get("k") == "MCall" and tmp.get("n") == "data" else None
+    tini = L.decl.get(tmpd, {}).get("init")
+    tsz = strip_cast(tini["a"][0]) if tini is not None and tini.get("a") else None
+    cnt2 = strip_cast(r2["a"][1])
+
+    def same_var(x):
+        if lenvar is None or x is None or x.get("k") != "Ref":
+            return None
+        return x.get("d") == lenvar
+    settle("%s/istream" % inst, [
+        ((n1.get("type") == lent) if (lenvar is not None and n1 is not None and n1.get("k") == "SizeOf") else None, "first read fills the length word with sizeof(its type)"),
+        ((back.get("type") == lent) if (back is not None and back.get("k") == "SizeOf" and lent) else None, "seeks back by exactly the length word"),
+        (same_var(cnt2), "second read takes `length` bytes"),
+        (same_var(tsz), "temporary buffer has `length` bytes"),
+        (targs_of(fwd[0].get("cfull", "")) == targs.strip("<>"), "forwards the type parameters %s" % targs),
+        (L.canon(fwd[0]["a"][0]) == "$p0" if strip_cast(fwd[0]["a"][0]).get("k") == "Ref" else None, "forwards the FileMode tag"),
+        ((strip_cast(fwd[0]["a"][1]).get("d") == tmpd) if (tmpd is not None and strip_cast(fwd[0]["a"][1]).get("k") == "Ref") else None, "forwards the buffer that was read"),
+    ], rs_)
 
 
 # -------------------------------------------------------------------------------------------------
@@ -1354,9 +1440,8 @@ def check_vocabulary(ck, facts):
         base = strip_targs(sc)
         fw, fr = wr.get(cls), rd.get(cls)
         if fw is None or fr is None:
-            have = fw or fr
-            ck.ob("E12.mode-sets", "%s/overloads" % sc, False, "class has %s(FileMode, stream) but no %s(FileMode, stream)" % (
-                "write_out" if fw else "read_from", "read_from" if fw else "write_out"), have.file, have.line)
+            ck.incomplete("E12.mode-sets", "%s: %s(FileMode, stream) is instantiated by the driver but %s(FileMode, stream) is not" % (
+                sc, "write_out" if fw else "read_from", "read_from" if fw else "write_out"))
             continue
         sw, sr = mode_switch(fw), mode_switch(fr)
         if sw is None or sr is None:
@@ -1379,8 +1464,11 @@ def check_vocabulary(ck, facts):
         # default branches must refuse
         for nm, groups, f in (("write_out", gw, fw), ("read_from", gr, fr)):
             dg = [st for ls, st in groups if "default" in ls and len(ls) == 1]
-            ok = bool(dg) and any(c.get("noreturn") for s in dg[0] for c in walk(s) if is_call(c))
-            ck.ob("E12.mode-sets", "%s/%s/default-refuses" % (sc, nm), ok, "default branch aborts" if ok else "unsupported modes are not refused", f.file, f.line, trivial=True)
+            ok = bool(dg) and any(c.get("noreturn") or c.get("k") == "Throw" for s in dg[0] for c in walk(s) if is_call(c) or c.get("k") == "Throw")
+            if ok:
+                ck.ob("E12.mode-sets", "%s/%s/default-refuses" % (sc, nm), True, "default branch aborts", f.file, f.line, trivial=True)
+            else:
+                ck.incomplete("E12.mode-sets", "%s::%s: refusal of unsupported modes not recognised (no aborting default branch)" % (sc, nm))
         # binary groups: same labels, same (tag, DT, IT)
         for ls, st in gw:
             sc_w = serial_calls(st, "_serialize")
@@ -1390,9 +1478,13 @@ def check_vocabulary(ck, facts):
             key = "%s/%s" % (sc, "+".join(labs))
             match = [(ls2, st2) for ls2, st2 in gr if ls2 & ls]
             sc_r = [c for ls2, st2 in match for c in serial_calls(st2, "_deserialize")]
-            if len(sc_w) != 1 or len(sc_r) != 1:
-                ck.ob("E12.mode-tags", key, False, "write_out calls _serialize %d times, the corresponding read_from cases call _deserialize %d times" % (len(sc_w), len(sc_r)), fr.file, fr.line)
+            if len(sc_w) != 1 or len(sc_r) > 1:
+                ck.incomplete("E12.mode-tags", "%s: write_out calls _serialize %d times, the corresponding read_from cases call _deserialize %d times" % (key, len(sc_w), len(sc_r)))
                 continue
+            if not sc_r:
+                if match:
+                    ck.incomplete("E12.mode-tags", "%s: the read_from cases do not call _deserialize directly (helper?)" % key)
+                continue      # a mode read_from does not handle at all is reported by E12.mode-sets
             a, b = sc_w[0], sc_r[0]
             same_labels = all(ls2 == ls for ls2, _ in match)
             ok = a["tag"] == b["tag"] and a["targs"] == b["targs"] and same_labels
@@ -1627,6 +1719,29 @@ def is_this_call(n, names, fn=None):
 
 def rows_loop(st, fn=None):
     """`for(i = 0; i < rows(); ++i)` (the bound possibly hoisted into a constant local) -> decl id of i, else None"""
+    if st.get("k") == "While" and fn is not None:
+        cond = strip_cast(st.get("c"))
+        if not (cond is not None and cond.get("k") == "Bin" and cond.get("op") == "<" and strip_cast(cond["lhs"]).get("k") == "Ref"
+                and is_this_call(cond["rhs"], ("rows", "_rows"), fn)):
+            return None
+        d = strip_cast(cond["lhs"])["d"]
+        ini = None
+        nassign = 0
+        for n in fn.nodes():
+            if n.get("k") == "Decl":
+                for v in n["vars"]:
+                    if v["d"] == d:
+                        ini = v.get("init")
+            if n.get("k") == "Assign" and strip_cast(n["lhs"]).get("d") == d:
+                nassign += 1
+        if ini is None or not is_zero(ini) or nassign:
+            return None
+        incs = [x for x in walk(st.get("body")) if x.get("k") == "Un" and x.get("op") == "++" and strip_cast(x["e"]).get("d") == d]
+        top = [x for x in stmts_of(st.get("body")) if x.get("k") == "Un" and x.get("op") == "++" and strip_cast(x["e"]).get("d") == d]
+        outside = [x for x in fn.nodes() if x.get("k") == "Un" and x.get("op") in ("++", "--") and strip_cast(x["e"]).get("d") == d]
+        if len(incs) == 1 and len(top) == 1 and len(outside) == 1 and not any(x.get("k") == "Continue" for x in walk(st.get("body"))):
+            return d
+        return None
     if st.get("k") != "For":
         return None
     ini, cond, inc = st.get("init"), strip_cast(st.get("c")), strip_cast(st.get("inc"))
@@ -1686,7 +1801,7 @@ def check_rowptr_builders(ck, facts):
                     loops = enclosing(n, ("For", "ForRange", "While", "Do"))
                     if loops:
                         inner = loops[0]
-                        if not (inner.get("k") == "For" and rows_loop(inner, f) == e["d"]):
+                        if rows_loop(inner, f) != e["d"]:
                             ordinals[e["d"]] = inner
         nz_cursor = set()
         for a in ("col_ind", "val"):
@@ -1726,8 +1841,13 @@ def check_rowptr_builders(ck, facts):
                   sample={"subscript": render(idx), "kind": kind})
         # --- coverage of [0, rows]
         key = "%s/read_from/row_ptr" % sc
+        ord_store = any(strip_cast(strip_cast(s_["lhs"])["idx"]).get("d") in ordinals for s_ in stores.get("row_ptr", []) if strip_cast(strip_cast(s_["lhs"])["idx"]).get("k") == "Ref")
         if loop_store is None:
-            ck.ob("E2.rowptr-coverage", key, False, "no loop over [0, rows()) stores row_ptr[row]: rows without entries keep an undefined offset", f.file, f.line)
+            if ord_store:
+                ck.ob("E2.rowptr-coverage", key, False, "row_ptr is only stored at the ordinals of an iteration over the rows that have entries; no loop over [0, rows()) defines it: "
+                      "rows without entries keep an undefined offset", f.file, f.line)
+            else:
+                ck.incomplete("E2.rowptr-coverage", "%s: no loop over [0, rows()) storing row_ptr[row] recognised (filled by an unmodelled construct?)" % key)
         else:
             s, lp, off = loop_store
             body = stmts_of(lp["body"])
@@ -1739,16 +1859,22 @@ def check_rowptr_builders(ck, facts):
                 if any(x.get("k") in ("Continue", "Break", "Return") for x in walk(b)):
                     break
             other = end_store if off == 0 else zero_store
-            ok = uncond and other is not None
-            ck.ob("E2.rowptr-coverage", key, ok, ("row_ptr[%s] is stored on every iteration of the loop over [0, rows()) and row_ptr[%s] after it" % ("i" if off == 0 else "i+1", "rows()" if off == 0 else "0")) if ok else
-                  ("the store row_ptr[i] is %s; the %s slot is %s" % ("unconditional" if uncond else "skipped on some iterations (continue/break before it)", "end" if off == 0 else "first", "stored" if other is not None else "never stored")),
-                  f.file, s.get("l"))
+            if uncond and other is None:
+                ck.incomplete("E2.rowptr-coverage", "%s: the store of the %s slot of row_ptr was not recognised" % (key, "end" if off == 0 else "first"))
+            else:
+                ck.ob("E2.rowptr-coverage", key, uncond, ("row_ptr[%s] is stored on every iteration of the loop over [0, rows()) and row_ptr[%s] after it" % ("i" if off == 0 else "i+1", "rows()" if off == 0 else "0")) if uncond else
+                      "the store row_ptr[i] is skipped on some iterations (continue/break before it): those rows keep an undefined offset", f.file, s.get("l"))
             # value kind: the running NZ cursor
-            v = strip_cast(s["rhs"])
-            okv = v.get("k") == "Ref" and v.get("d") in nz_cursor
-            ck.ob("E2.rowptr-value", key, okv, "row_ptr[i] receives '%s'%s" % (render(v), " = the cursor that subscripts col_ind/val (kind NZ)" if okv else ", which is not the cursor used for the col_ind/val stores"), f.file, s.get("l"))
-            # entries of a keyed container go to the row whose index equals the key
             lvd = rows_loop(lp, f)
+            v = through_consts(f, s["rhs"])
+            okv = v.get("k") == "Ref" and v.get("d") in nz_cursor
+            if okv:
+                ck.ob("E2.rowptr-value", key, True, "row_ptr[i] receives '%s' = the cursor that subscripts col_ind/val (kind NZ)" % render(v), f.file, s.get("l"))
+            elif (v.get("k") == "Ref" and v.get("d") == lvd) or v.get("k") == "Int":
+                ck.ob("E2.rowptr-value", key, False, "row_ptr[i] receives '%s' (%s), not the running count of stored entries" % (render(v), "the row index" if v.get("k") == "Ref" else "a constant"), f.file, s.get("l"))
+            else:
+                ck.incomplete("E2.rowptr-value", "%s: the value '%s' stored into row_ptr[i] is not the cursor of the col_ind/val stores and its kind is not established" % (key, render(v)))
+            # entries of a keyed container go to the row whose index equals the key
             inner = [x for b in body for x in walk(b) if x.get("k") in ("ForRange", "For", "While") and any(st_ in stores.get("col_ind", []) for st_ in walk(x))]
             for lp2 in inner[:1]:
                 rng = lp2.get("range")
@@ -1757,44 +1883,69 @@ def check_rowptr_builders(ck, facts):
                     if x.get("k") == "Member" and x.get("n") == "second":
                         src = x.get("b")
                 if src is None:
+                    ck.incomplete("E2.rowptr-kind", "%s/read_from/row-key: source of the entries of a row not recognised" % sc)
                     continue
+                src0 = strip_cast(src)
+                while src0.get("k") in ("OpCall", "Un") and src0.get("op") in ("->", "*"):
+                    src0 = strip_cast(src0["a"][0] if src0.get("k") == "OpCall" else src0["e"])
                 src_c = render(strip_cast(src))
-                guard = False
+                guard = None
+
+                def key_test(cnd, op):
+                    for y in walk(cnd):
+                        if y.get("k") == "Bin" and y.get("op") == op:
+                            sides = [strip_cast(y["lhs"]), strip_cast(y["rhs"])]
+                            if any(z.get("k") == "Ref" and z.get("d") == lvd for z in sides) and any(
+                                    z.get("k") == "Member" and z.get("n") == "first" and render(strip_cast(z.get("b"))) == src_c for z in sides):
+                                return True
+                    return False
+                # form 1: keyed lookup  it = container.find(i)
+                if src0.get("k") == "Ref" and src0.get("dk") == "local":
+                    ini = const_inits(f).get(src0["d"])
+                    ini = strip_cast(ini) if ini is not None else None
+                    if ini is not None and ini.get("k") == "MCall" and ini.get("n") == "find" and ini.get("a") and strip_cast(ini["a"][0]).get("d") == lvd:
+                        guard = "looked up with find(i)"
                 # form 2: the inner loop is enclosed in `if(... key == i ...)`
                 x_ = lp2
-                while id(x_) in par and par[id(x_)] is not lp:
+                while guard is None and id(x_) in par and par[id(x_)] is not lp:
                     x_ = par[id(x_)]
-                    if x_.get("k") == "If" and any(y is lp2 for y in walk(x_.get("then"))):
-                        for y in walk(x_["c"]):
-                            if y.get("k") == "Bin" and y.get("op") == "==":
-                                sides = [strip_cast(y["lhs"]), strip_cast(y["rhs"])]
-                                if any(z.get("k") == "Ref" and z.get("d") == lvd for z in sides) and any(
-                                        z.get("k") == "Member" and z.get("n") == "first" and render(strip_cast(z.get("b"))) == src_c for z in sides):
-                                    guard = True
+                    if x_.get("k") == "If" and any(y is lp2 for y in walk(x_.get("then"))) and key_test(x_["c"], "=="):
+                        guard = "enclosed in a test key == i"
+                # form 3: `if(... key != i) continue;` in front of the inner loop
                 for b in body:
-                    if any(x is lp2 for x in walk(b)):
+                    if guard is not None or any(x is lp2 for x in walk(b)):
                         break
-                    if b.get("k") == "If" and any(x.get("k") == "Continue" for x in walk(b.get("then"))):
-                        for x in walk(b["c"]):
-                            if x.get("k") == "Bin" and x.get("op") == "!=":
-                                sides = [strip_cast(x["lhs"]), strip_cast(x["rhs"])]
-                                refs = [y for y in sides if y.get("k") == "Ref" and y.get("d") == lvd]
-                                keys = [y for y in sides if y.get("k") == "Member" and y.get("n") == "first" and render(strip_cast(y.get("b"))) == src_c]
-                                if refs and keys:
-                                    guard = True
-                ck.ob("E2.rowptr-kind", "%s/read_from/row-key" % sc, guard,
-                      "the entries of the map node %s are stored into row i %s" % (src_c, "only when its key equals i" if guard else "without comparing its key with i"), f.file, lp2.get("l"))
+                    if b.get("k") == "If" and any(x.get("k") == "Continue" for x in walk(b.get("then"))) and key_test(b["c"], "!="):
+                        guard = "skipped unless key == i"
+                if guard is not None:
+                    ck.ob("E2.rowptr-kind", "%s/read_from/row-key" % sc, True, "the entries of the map node %s are stored into row i only when its key equals i (%s)" % (src_c, guard), f.file, lp2.get("l"))
+                else:
+                    sequential = src0.get("k") == "Ref" and any(x.get("k") in ("Un", "OpCall") and x.get("op") == "++" and strip_cast((x.get("a") or [x.get("e")])[0]).get("d") == src0.get("d") for x in walk(lp["body"]))
+                    compared = any(y.get("k") == "Member" and y.get("n") == "first" and render(strip_cast(y.get("b"))) == src_c for y in walk(lp["body"]) if True) and any(
+                        y.get("k") == "Bin" and y.get("op") in ("==", "!=", "<", ">", "<=", ">=") and any(z.get("k") == "Member" and z.get("n") == "first" for z in (strip_cast(y["lhs"]), strip_cast(y["rhs"]))) for y in walk(lp["body"]))
+                    if sequential and not compared:
+                        ck.ob("E2.rowptr-kind", "%s/read_from/row-key" % sc, False, "the entries of the map node %s, which is advanced once per row with entries, are stored into row i without any comparison of its key with i: "
+                              "a row without entries receives the entries of the next non-empty row" % src_c, f.file, lp2.get("l"))
+                    else:
+                        ck.incomplete("E2.rowptr-kind", "%s/read_from/row-key: how the entries of %s are matched with row i was not recognised" % (sc, src_c))
         # --- NZ cursor discipline
         cs, vs = stores.get("col_ind", []), stores.get("val", [])
         if cs and vs:
             ci = strip_cast(strip_cast(cs[0]["lhs"])["idx"])
             vi = strip_cast(strip_cast(vs[0]["lhs"])["idx"])
             same = ci.get("k") == "Ref" and vi.get("k") == "Ref" and ci.get("d") == vi.get("d")
-            blk = par.get(id(cs[0]))
-            incs = [x for x in stmts_of(blk) if x.get("k") == "Un" and x.get("op") == "++" and strip_cast(x["e"]).get("d") == ci.get("d")] if blk is not None else []
-            ck.ob("E2.rowptr-value", "%s/read_from/nz-cursor" % sc, same and len(incs) == 1,
-                  "col_ind[%s] and val[%s] are stored together and the cursor advances once per entry" % (render(ci), render(vi)) if same and len(incs) == 1 else
-                  "col_ind[%s] / val[%s]: cursor advanced %d times in the block of the stores" % (render(ci), render(vi), len(incs)), f.file, cs[0].get("l"))
+            lps = [x for x in enclosing(cs[0], ("For", "ForRange", "While", "Do"))]
+            if not same or not lps:
+                ck.incomplete("E2.rowptr-value", "%s/read_from/nz-cursor: col_ind[%s] / val[%s] are not subscripted by one plain cursor inside a loop" % (sc, render(ci), render(vi)))
+            else:
+                incs = [x for x in walk(lps[0].get("body")) if (x.get("k") == "Un" and x.get("op") == "++" and strip_cast(x["e"]).get("d") == ci.get("d"))
+                        or (x.get("k") == "Assign" and x.get("op") == "+=" and strip_cast(x["lhs"]).get("d") == ci.get("d"))]
+                if len(incs) == 1:
+                    ck.ob("E2.rowptr-value", "%s/read_from/nz-cursor" % sc, True, "col_ind[%s] and val[%s] are stored together and the cursor advances once per entry" % (render(ci), render(vi)), f.file, cs[0].get("l"))
+                elif not incs:
+                    ck.ob("E2.rowptr-value", "%s/read_from/nz-cursor" % sc, False, "the cursor '%s' is not advanced in the loop that stores col_ind/val: the entries of a row overwrite each other" % render(ci), f.file, cs[0].get("l"))
+                else:
+                    ck.incomplete("E2.rowptr-value", "%s/read_from/nz-cursor: cursor '%s' is advanced %d times in the entry loop" % (sc, render(ci), len(incs)))
 
 
 def flatten_chain(n):
@@ -2158,6 +2309,11 @@ class StreamFn(LayoutFn):
             if pl is not None:
                 d = self.ival(r)
                 return (pl[0], pl[1] + d if n["op"] == "+" else pl[1] - d)
+        if k == "Call" and n.get("callee") in ("std::next", "std::prev") and len(n.get("a", [])) == 2:
+            pl = self.ptr(n["a"][0])
+            if pl is not None:
+                d = self.ival(n["a"][1])
+                return (pl[0], pl[1] + d if n["callee"] == "std::next" else pl[1] - d)
         if k == "Un" and n.get("op") == "&" and strip_cast(n["e"]).get("k") == "Ref" and strip_cast(n["e"]).get("dk") == "local":
             return ("VAR:%d" % strip_cast(n["e"])["d"], sp.Integer(0))
         if k == "Un" and n.get("op") == "&":
@@ -2401,11 +2557,15 @@ class StreamFn(LayoutFn):
                 self.slices[d] = name
                 self.events.append({"kind": "slice", "base": a[0], "from": a[1], "to": b[1], "consumer": name, "line": ini.get("l")})
                 return
+            if self.mentions_root(ini):
+                raise Unknown("byte range '%s' cut out of the stream in a way the analysis does not model" % render(ini)[:80])
         if typ.endswith("*") or "iterator" in typ:
             p = self.ptr(init)
             if p is not None:
                 self.ptrs[d] = p
                 return
+            if self.mentions_root(init) and not (strip_cast(init).get("k") == "Bin"):
+                raise Unknown("position '%s' in the stream is computed in a way the analysis does not model" % render(init)[:80])
             # in_data = root.data() + map[identifier]
             ini2 = strip_cast(init)
             if ini2.get("k") == "Bin" and ini2.get("op") == "+":
@@ -2417,6 +2577,9 @@ class StreamFn(LayoutFn):
             return
         if re.search(r"(int|long|size_t|uint64_t|Index|streamsize)\b", typ) and not typ.endswith("&"):
             self.vals[d] = self.ival(init)
+
+    def mentions_root(self, n):
+        return any(self.root_name(x) == "ROOT" for x in walk(n) if x.get("k") in ("Ref", "Member"))
 
     def do_insert(self, s):
         a = s.get("a", [])
@@ -2513,9 +2676,13 @@ def check_checkpoint_control(ck, facts):
         total = pos
         # ---- reader: record loop
         Rd = StreamFn(res)
-        wl = [n for n in stmts_of(res.body) if n.get("k") == "While"]
+        wl = [n for n in stmts_of(res.body) if n.get("k") == "While" or (n.get("k") == "For" and n.get("inc") is None)]
         if len(wl) != 1:
-            raise Unknown("expected one while loop over the records")
+            raise Unknown("expected one loop over the records whose cursor is advanced in the body")
+        if wl[0].get("k") == "For":
+            ini = wl[0].get("init")
+            if not (ini is not None and ini.get("k") == "Decl" and len(ini["vars"]) == 1 and is_zero(ini["vars"][0].get("init"))):
+                raise Unknown("record loop does not start at offset 0")
         cur = None
         c = strip_cast(wl[0]["c"])
         if c.get("k") == "Bin" and c.get("op") == "<":
@@ -2595,14 +2762,12 @@ def check_checkpoint_control(ck, facts):
                         accs[d] = accs[d] + Wloc.ival(b["rhs"])
         ret = [strip_cast(n["e"]) for n in col.nodes() if n.get("k") == "Return" and n.get("e") is not None]
         rs = [n for n in col.nodes() if n.get("k") == "MCall" and n.get("n") == "resize" and W.root_name(n.get("obj")) == "ROOT"]
-        ok = False
-        detail = "returned size not recognised"
         if len(ret) == 1 and ret[0].get("d") in accs and len(rs) == 1 and strip_cast(rs[0]["a"][0]).get("d") == ret[0]["d"]:
             per = sp.expand(accs[ret[0]["d"]])
             per = per.subs({symbol("$obj.first.length()"): symbol("#$obj.first")})
-            ok = seq(per - total)
-            detail = "per object the returned/resized length grows by %s, the stream by %s" % (sp.sstr(per), sp.sstr(total))
-        ck.ob(R, "CheckpointControl/collect/length", ok, detail, col.file, col.line)
+            ck.ob(R, "CheckpointControl/collect/length", seq(per - total), "per object the returned/resized length grows by %s, the stream by %s" % (sp.sstr(per), sp.sstr(total)), col.file, col.line)
+        else:
+            ck.incomplete(R, "CheckpointControl::_collect_checkpoint_data: the returned / resized length is not a per-object accumulator the analysis recognises")
     except Unknown as e:
         ck.incomplete(R, "CheckpointControl::_collect_checkpoint_data: %s" % e)
     # save(BinaryStream) / load(BinaryStream)
@@ -2613,10 +2778,11 @@ def check_checkpoint_control(ck, facts):
         S = StreamFn(sav[0])
         S.exec_block(stmts_of(sav[0].body))
         wr = [e for e in S.events if e["kind"] == "write"]
-        ok = False
-        detail = "writes: %s" % [(str(e["src"]), sp.sstr(e["n"])) for e in wr]
         lenvar = None
-        if len(wr) == 2 and isinstance(wr[0]["src"], tuple) and wr[0]["src"][0] == "var":
+        if not (len(wr) == 2 and isinstance(wr[0]["src"], tuple) and wr[0]["src"][0] == "var" and wr[0]["src"][1] in S.decl and S.decl[wr[0]["src"][1]].get("init") is not None
+                and isinstance(wr[1]["src"], tuple)):
+            raise Unknown("save: expected a length word followed by the buffer (found %s)" % [(str(e["src"]), sp.sstr(e["n"])) for e in wr])
+        if True:
             lenvar = wr[0]["src"][1]
             lt = sav[0].type(S.decl[lenvar]["t"])
             init = strip_cast(S.decl[lenvar]["init"])
@@ -2634,9 +2800,9 @@ def check_checkpoint_control(ck, facts):
         rd = [e for e in L.events if e["kind"] == "read"]
         cp = [e for e in L.events if e["kind"] == "copy"]
         rz = [e for e in L.events if e["kind"] == "resize"]
-        ok = len(rd) == 1 and len(cp) == 1 and len(rz) == 1
-        detail = "length word / resize / copy not recognised"
-        if ok:
+        if not (len(rd) == 1 and len(cp) == 1 and len(rz) == 1):
+            raise Unknown("load: length word / resize / copy not recognised (%d reads, %d copies, %d resizes)" % (len(rd), len(cp), len(rz)))
+        if True:
             V = symbol(rd[0]["var"])
             n = sp.expand(cp[0]["to"] - cp[0]["from"])
             ok = seq(rd[0]["off"]) and seq(cp[0]["from"] - rd[0]["n"]) and seq(n - V) and seq(rz[0]["n"] - V)
@@ -2678,22 +2844,49 @@ def check_checkpoint_state(ck, facts):
     for m in members:
         typ = rd[m] or ""
         is_map = "std::map" in typ
-        # --- reset in clear_input
-        resets = []
+        # --- reset in clear_input (helpers of the class are followed one level deep)
+        resets, unmodelled = [], []
+        NONMUT = ("size", "count", "find", "at", "begin", "end", "cbegin", "cend", "empty", "data", "capacity", "length")
+        bodies = [clear[0]]
         for n in clear[0].nodes():
-            if n.get("k") == "MCall":
-                o = n.get("obj")
-                if this_member(o, (m,)):
-                    if n.get("n") == "clear" or (n.get("n") == "resize" and n.get("a") and is_zero(n["a"][0])):
-                        resets.append(render(n))
-                    if n.get("n") == "swap" and n.get("a") and strip_cast(n["a"][0]).get("k") in ("Construct", "TempObj") and not strip_cast(n["a"][0]).get("a"):
-                        resets.append(render(n))
-                elif n.get("n") == "swap" and n.get("a") and this_member(n["a"][0], (m,)) and o is not None and strip_cast(o).get("k") in ("Construct", "TempObj") and not strip_cast(o).get("a"):
-                    resets.append("%s().swap(%s)" % (strip_cast(o).get("ccls") or "T", m))
-            if n.get("k") in ("Assign", "OpCall") and n.get("op") == "=":
-                l, r_ = (n["lhs"], n["rhs"]) if n.get("k") == "Assign" else n["a"]
-                if this_member(l, (m,)) and strip_cast(r_).get("k") in ("Construct", "TempObj") and not [a for a in strip_cast(r_).get("a", []) if not is_zero(a)]:
-                    resets.append(render(n))
+            if n.get("k") == "MCall" and (n.get("obj") is None or strip_cast(n["obj"]).get("k") == "This"):
+                bodies += [g for g in facts.functions if g.tk != "pattern" and g.cls == clear[0].cls and g.qn == n.get("callee")][:1]
+        for body in bodies:
+            for n in body.nodes():
+                if n.get("k") == "MCall":
+                    o = n.get("obj")
+                    if this_member(o, (m,)):
+                        if n.get("n") == "clear" or (n.get("n") == "resize" and n.get("a") and is_zero(n["a"][0])):
+                            resets.append(render(n))
+                        elif n.get("n") == "swap" and n.get("a") and strip_cast(n["a"][0]).get("k") in ("Construct", "TempObj") and not strip_cast(n["a"][0]).get("a"):
+                            resets.append(render(n))
+                        elif n.get("n") == "erase" and len(n.get("a", [])) == 2:
+                            resets.append(render(n))
+                        elif n.get("n") not in NONMUT:
+                            unmodelled.append(render(n)[:60])
+                    elif n.get("n") == "swap" and n.get("a") and this_member(n["a"][0], (m,)):
+                        if o is not None and strip_cast(o).get("k") in ("Construct", "TempObj") and not strip_cast(o).get("a"):
+                            resets.append("%s().swap(%s)" % (strip_cast(o).get("ccls") or "T", m))
+                        else:
+                            unmodelled.append(render(n)[:60])
+                if n.get("k") in ("Assign", "OpCall") and n.get("op") == "=":
+                    l, r_ = (n["lhs"], n["rhs"]) if n.get("k") == "Assign" else n["a"]
+                    if this_member(l, (m,)):
+                        r0 = strip_cast(r_)
+                        if (r0.get("k") in ("Construct", "TempObj") and not [a for a in r0.get("a", []) if not is_zero(a)]) or (r0.get("k") == "InitList" and not r0.get("a")):
+                            resets.append(render(n))
+                        else:
+                            unmodelled.append(render(n)[:60])
+                if n.get("k") == "Call":
+                    for i, a in enumerate(n.get("a", [])):
+                        if this_member(a, (m,)):
+                            other = [strip_cast(x) for j, x in enumerate(n["a"]) if j != i]
+                            if (n.get("callee") or "").endswith("swap") and other and other[0].get("k") in ("Construct", "TempObj", "Ref"):
+                                o0 = through_consts(clear[0], other[0])
+                                if o0.get("k") in ("Construct", "TempObj") and not o0.get("a"):
+                                    resets.append(render(n))
+                                    continue
+                            unmodelled.append(render(n)[:60])
         # --- writes by the load path
         writes = []
         for f in fill:
@@ -2721,6 +2914,10 @@ def check_checkpoint_state(ck, facts):
         overwritten = bool(writes) and not keep
         ok = bool(resets) or overwritten
         loc = keep[0] if keep else (writes[0] if writes else None)
+        if not ok and (unmodelled or not writes):
+            ck.incomplete(R, "CheckpointControl/%s: neither a reset nor an overwriting store was recognised, but %s" % (
+                m, ("clear_input() applies %s to it" % ", ".join(unmodelled)) if unmodelled else "no store of the load path was recognised either"))
+            continue
         ck.ob(R, "CheckpointControl/%s" % m, ok,
               ("clear_input() resets it (%s)" % resets[0]) + ("; every load overwrites it (%s)" % ", ".join(sorted(set(w[1] for w in writes))) if overwritten else "") if resets else
               ("every load overwrites it unconditionally (%s)" % ", ".join(sorted(set(w[1] for w in writes)))) if overwritten else
@@ -2774,8 +2971,10 @@ def check_meta_checkpoints(ck, facts):
                 cs = [c for c in f.calls() if c.get("k") == "MCall" and c.get("n") == name]
                 return [LayoutFn(f, "w").canon(c.get("obj")) for c in cs]
             a, b, c_ = fwd(w, "set_checkpoint_data"), fwd(r, "restore_from_checkpoint_data"), fwd(g, "get_checkpoint_size")
-            ok = len(a) == 1 and a == b == c_
-            ck.ob(R, "%s/forward" % sc, ok, "set/restore/size forward to %s / %s / %s" % (a, b, c_), w.file, w.line, trivial=True)
+            if not (len(a) == 1 and len(b) == 1 and len(c_) == 1):
+                ck.incomplete(R, "%s: forwarding of the one-block specialisation not recognised (%s / %s / %s)" % (sc, a, b, c_))
+            else:
+                ck.ob(R, "%s/forward" % sc, a == b == c_, "set/restore/size forward to %s / %s / %s" % (a, b, c_), w.file, w.line, trivial=True)
             continue
         # every sub-object's data is preceded by its length word, except the last one
         bind = {}
@@ -2920,8 +3119,11 @@ def check_pack(ck, facts):
             for lab in sorted(set(te) | set(td)):
                 key = "%s/%s" % (hs, lab.rsplit("::", 1)[-1])
                 ce, cd = te.get(lab), td.get(lab)
+                if (lab in te and ce is None) or (lab in td and cd is None):
+                    ck.incomplete("E12.pack-cases", "%s: the case does not consist of a single xencode/xdecode call" % key)
+                    continue
                 if ce is None or cd is None:
-                    ck.ob("E12.pack-cases", key, False, "pack type handled by %s only" % ("encode" if ce is not None else "decode" if cd is not None else "neither (not a single x-call)"), fe.file, swe.get("l"))
+                    ck.ob("E12.pack-cases", key, False, "pack type handled by %s only: an array packed as this type cannot be %s" % ("encode" if ce is not None else "decode", "decoded" if ce is not None else "produced"), fe.file, swe.get("l"))
                     continue
                 val = None
                 for n in walk(swe):
@@ -2999,6 +3201,11 @@ def check_pack(ck, facts):
                 except Unknown as e:
                     detail = str(e)
                 key = "%s/loop%d" % (short, bi)
+                if detail == "loop not recognised" or (not ok and not detail.startswith("for i <")):
+                    if (key, "inc") not in done:
+                        done.add((key, "inc"))
+                        ck.incomplete("E2.pack-loops", "%s in %s: conversion loop not recognised (%s)" % (key, f.full, detail))
+                    continue
                 if (key, ok) not in done:
                     done.add((key, ok))
                     ck.ob("E2.pack-loops", key, ok, detail + ("" if ok else " (expected every i in [0,count) once, same i on both sides, buffer %s the typed array)" % ("<-" if short == "xencode" else "->")), f.file, lp.get("l"))
@@ -3040,18 +3247,29 @@ def check_pack(ck, facts):
             seen.add((key, tuple(bad)))
             ck.ob("E1.pack-roles", key, not bad, "; ".join(bad) or "every forwarded argument keeps its role (%s)" % ", ".join(c.get("pn", [])), f.file, c.get("l"))
         if re.search(r"^FEAT::Pack::(encode|decode)$", base):
-            steps = []
-            for n in stmts_of(f.body):
-                if n.get("k") == "If":
-                    callee = [strip_targs(c.get("callee", "")).rsplit("::", 1)[-1] for c in walk(n.get("then")) if c.get("k") == "Call" and strip_targs(c.get("callee", "")).startswith("FEAT::Pack::")]
-                    callee = [re.sub(r"(en|de)code", "code", x) for x in callee if "code" in x]
-                    if callee:
-                        steps.append((L.canon(n["c"]), tuple(callee)))
+            steps = {}
+
+            def ifs(ss):
+                for n in ss:
+                    if n.get("k") == "Block":
+                        ifs(n.get("s", []))
+                    elif n.get("k") == "If":
+                        callee = [strip_targs(c.get("callee", "")).rsplit("::", 1)[-1] for c in walk(n.get("then")) if c.get("k") == "Call" and strip_targs(c.get("callee", "")).startswith("FEAT::Pack::")]
+                        callee = [re.sub(r"(en|de)code", "code", x) for x in callee if "code" in x]
+                        if callee:
+                            steps[L.canon(n["c"])] = tuple(callee)
+                        if n.get("else") is not None:
+                            ifs(stmts_of(n["else"]))
+            ifs(stmts_of(f.body))
             chain.setdefault(base.rsplit("::", 1)[-1], steps)
     if "encode" in chain and "decode" in chain:
-        ok = chain["encode"] == chain["decode"] and len(chain["encode"]) >= 1
-        ck.ob("E1.pack-roles", "encode/decode/dispatch", ok, "encode dispatches %s; decode dispatches %s" % ([c for _, c in chain["encode"]], [c for _, c in chain["decode"]]) if ok else
-              "dispatch chains differ: encode %s / decode %s" % (chain["encode"], chain["decode"]), featlib.repo_path("kernel/util/pack.hpp"), None)
+        ce_, cd_ = chain["encode"], chain["decode"]
+        if not ce_ or set(ce_) != set(cd_):
+            ck.incomplete("E1.pack-roles", "encode/decode/dispatch: the conditions under which encode and decode dispatch cannot be aligned (%s / %s)" % (sorted(ce_), sorted(cd_)))
+        else:
+            diff = [c for c in ce_ if ce_[c] != cd_[c]]
+            ck.ob("E1.pack-roles", "encode/decode/dispatch", not diff, ("encode and decode dispatch %s on the same conditions" % sorted(set(ce_.values()))) if not diff else
+                  "under '%s' encode calls %s but decode calls %s" % (diff[0], ce_[diff[0]], cd_[diff[0]]), featlib.repo_path("kernel/util/pack.hpp"), None)
 
 
 # -------------------------------------------------------------------------------------------------
@@ -3083,14 +3301,23 @@ def obj_key(o):
     return render(o)
 
 
-def emptiness_polarity(cond, obj, vec):
+def emptiness_polarity(cond, obj, vec, fn=None):
+    c0 = strip_cast(cond)
+    if fn is not None and c0 is not None and c0.get("k") == "Ref" and c0.get("dk") == "local":
+        c1 = through_consts(fn, c0)
+        if c1 is not c0:
+            return _emptiness_polarity(c1, obj, vec, fn)
+    return _emptiness_polarity(cond, obj, vec, fn)
+
+
+def _emptiness_polarity(cond, obj, vec, fn=None):
     """+1: cond true => the arrays of `obj` may be unallocated (size()==0, used_elements()==0, _vec.size()==0, _vec.empty());
        -1: cond true => they are allocated / there is something to process (!= 0, > 0, !empty()); None: not an emptiness test"""
     c = strip_cast(cond)
     if c is None:
         return None
     if c.get("k") == "Un" and c.get("op") == "!":
-        p = emptiness_polarity(c["e"], obj, vec)
+        p = emptiness_polarity(c["e"], obj, vec, fn)
         return -p if p else None
 
     def subject(x):
@@ -3105,6 +3332,8 @@ def emptiness_polarity(cond, obj, vec):
         return False
     if c.get("k") == "MCall" and c.get("n") == "empty" and subject(c):
         return 1
+    if c.get("k") == "MCall" and c.get("n") != "empty" and subject(c):
+        return -1          # `if(size())`
     if c.get("k") == "Bin" and c.get("op") in ("==", "!=", ">", "<"):
         l, r = c["lhs"], c["rhs"]
         if subject(l) and is_zero(r):
@@ -3144,7 +3373,7 @@ def emptiness_guard(fn, par, node, obj, vec):
         c = fn.by_id(b["cond"])
         if c is None:
             continue
-        pol = emptiness_polarity(c, obj, vec)
+        pol = emptiness_polarity(c, obj, vec, fn)
         if pol is None:
             continue
         empty_succ = b["succ"][0] if pol > 0 else b["succ"][1]
@@ -3413,8 +3642,11 @@ def check_empty_containers(ck, facts):
             if any(r is None for r in results):
                 ck.incomplete("E7.nullable-deref", "%s: no constructor of %s instantiated in the driver to establish the array-free state" % (key, short_cls(acc0.get("ccls"))))
                 continue
-            bad = [r for r in results if not r[0]]
-            if bad:
+            inc = [r for r in results if r[0] == "incomplete"]
+            bad = [r for r in results if r[0] is False]
+            if inc and not bad:
+                ck.incomplete("E7.nullable-deref", "%s: %s" % (key, inc[0][1]))
+            elif bad:
                 ck.ob("E7.nullable-deref", key, False, bad[0][1], f.file, n0.get("l"))
             else:
                 ck.ob("E7.nullable-deref", key, True, "; ".join(sorted(set(r[1] for r in results))), f.file, n0.get("l"), trivial=all(r[2] for r in results))
@@ -3449,10 +3681,11 @@ def decide_nullable(ck, facts, f, par, cfg, info, uses, vec0, obj, lp, accs_used
     if g is not None:
         return True, "%s: only reachable on the non-empty edge of '%s'" % (names, render(g)), False
     w = fs.witness
+    if w is None or w[3] != "param":
+        return "incomplete", "%s: the trip count of the loop at line %s in the states where %s is unallocated could not be evaluated (bound not built from scalar accessors of the object), and no emptiness guard was recognised" % (
+            names, (lp or n0).get("l"), vec0), False
     why_bad = "%s returns nullptr when %s is unallocated and is subscripted in the loop at line %s, whose trip count is not zero in that state" % (names, vec0, (lp or n0).get("l"))
-    if w is not None:
-        why_bad += ": the constructor %s(%s) leaves %s unallocated with %s() %s" % (
-            strip_targs(short_cls(w[0].cls)), ", ".join(w[1]), vec0, w[2], "taken from its argument" if w[3] == "param" else "not zero")
+    why_bad += ": the constructor %s(%s) leaves %s unallocated with %s() taken from its argument" % (strip_targs(short_cls(w[0].cls)), ", ".join(w[1]), vec0, w[2])
     return False, why_bad + "; no emptiness guard dominates the loop", False
 
 
@@ -3503,7 +3736,10 @@ def check_meta_stream_recursion(ck, facts):
             rec = d.get("_write_out_binary")
             general = rec is not None and any(x[0] == "this._rest" for x in member_io_calls(rec))
             key = "%s%s/%s" % (strip_targs(short_cls(c)), "<First,Rest...>" if general else "<Last>", wn.strip("_"))
-            ck.ob("E4.block-order", key, a == b and bool(a), "writer forwards %s; reader forwards %s" % (a, b), r.file, r.line,
+            if not a or not b:
+                ck.incomplete("E4.block-order", "%s: no forwarded IO calls recognised on the %s side" % (key, "writer" if not a else "reader"))
+                continue
+            ck.ob("E4.block-order", key, a == b, "writer forwards %s; reader forwards %s" % (a, b), r.file, r.line,
                   sample={"writer": [list(x) for x in a], "reader": [list(x) for x in b]})
 
 
@@ -3627,7 +3863,9 @@ def check_meta_file_recursion(ck, facts):
                 got.append(m)
         got_top = [m for m in got if m in top or m == "_rest"]
         want = top + (["_rest"] if any("." in m for m, _, _ in names) else [])
-        if got_top:
+        if got_top and sorted(got_top) != sorted(want):
+            ck.incomplete("E4.block-order", "%s: the reader's assignments of the blocks were not all recognised (%s vs %s)" % (sc, got_top, want))
+        elif got_top:
             ck.ob("E4.block-order", "%s/reader-order" % strip_targs(sc) + ("" if len(lines) > 1 else "<Last>"), got_top == want,
                   "reader assigns the names in line order to %s; writer's block order is %s" % (got_top, want), rd[0].file, rd[0].line)
 
